@@ -151,6 +151,11 @@ class Solver(ABC):
         else:
             self.config = self.Config(**kwargs)
 
+        # Set up precision before any JAX array is created or the problem is built
+        self.jax_double_precision = self.config.jax_double_precision
+        if self.jax_double_precision:
+            jax.config.update("jax_enable_x64", True)
+
         # Handle problem instance vs config
         if problem is not None:
             # If given a Problem instance directly, store
@@ -168,11 +173,6 @@ class Solver(ABC):
         self.gamma = jnp.array(self.config.gamma)
         self.epsilon = self.config.epsilon
         self.max_batch_size = self.config.max_batch_size
-
-        # Set up precision
-        self.jax_double_precision = self.config.jax_double_precision
-        if self.jax_double_precision:
-            jax.config.update("jax_enable_x64", True)
 
         # Set up logging
         self.set_verbosity(self.config.verbose)
